@@ -833,5 +833,5 @@ def replay(ctx, item):
         o = schedx.run_with_schedule(lambda: schedx.pipeline_outcome(src, "main"),
                                      [tuple(w) for w in script])
         outs.append(o)
-    return {"violation": len(set(outs)) > 1, "outcomes": [_first_line(o) for o in outs],
-            "scripts": item["scripts"]}
+    return {"violation": len(set(outs)) > 1, "program": item.get("name"),
+            "outcomes": [_first_line(o) for o in outs]}
